@@ -1209,6 +1209,19 @@ func (w *world) opConcurrentPush() {
 		return
 	}
 	br := hx.Pick(w.r, common)
+	create := w.r.Chance(2, 5)
+	if create {
+		// both sides CREATE the same new remote branch (no previous head at the remote): the
+		// fast-forward then has nothing to validate against except "still no head"
+		base := br
+		w.seq++
+		br = fmt.Sprintf("new%d", w.seq)
+		for _, db := range []string{x, y} {
+			w.must(db, fmt.Sprintf("call dolt_checkout('%s')", base))
+			w.must(db, fmt.Sprintf("call dolt_checkout('-b','%s')", br))
+		}
+		w.e.Rep.Hit("concpush:create-branch")
+	}
 	// make both sides advance so that the targets usually diverge
 	for _, db := range []string{x, y} {
 		w.must(db, fmt.Sprintf("call dolt_checkout('%s')", br))
@@ -1217,7 +1230,7 @@ func (w *world) opConcurrentPush() {
 		w.exec(db, fmt.Sprintf("call dolt_commit('-Am','conc %s %d')", db, w.nrow))
 	}
 	tx, ty := w.headOf(x, br), w.headOf(y, br)
-	desc := fmt.Sprintf("concpush %s,%s/%s", x, y, br)
+	desc := fmt.Sprintf("concpush %s,%s/%s create=%v", x, y, br, create)
 	replfault.Plan.Clear()
 	// hold the first pusher's ref-moving Commit until the other pusher's has completed: both have
 	// then passed their ancestor check against the same old head before either compare-and-swap
